@@ -66,6 +66,12 @@ CHECKS = {
         note="Trusted: Lean kernel; universe fact extractor; harness; SQLite returning stored records. expand_complete (a consistent input is never refused) is decided by the oracle, not proved.",
         design="DESIGN.md §5 C13",
     ),
+    "C02": dict(
+        technique="Lean 4 proof (table invariants preserved by every operation, by induction over histories; identity stability; refusals change nothing) + history correspondence on a real SQLite registry through both query systems + independent dict oracle",
+        text="inv_step / inv_history (UNIQUE (collection, type, data ID), unique ids, rows describe existing datasets, every dataset is a member of its RUN, which is of type RUN — preserved by every accepted or refused operation with arbitrary arguments, hence along every history), unique_type_dataid, one_run_forever (a dataset id never changes type / data ID / run), refusal_changes_nothing, tagged_only_by_associate are proved in Lean 4. The table model is tied to the code by seeded histories with valid and invalid arguments; after every step the membership of every collection is read through Registry.queryDatasets and Butler.query_datasets and compared with the model and with an independent dict model of the documented behaviour.",
+        note="Trusted: Lean kernel; harness; SQLite enforcing the declared UNIQUE/PK/FK constraints; PostgreSQL paths not executable here. The model follows the implementation where an existing collection name is returned whatever type is asked for (registerCollection returns False).",
+        design="DESIGN.md §5 C02",
+    ),
 }
 
 NOT_YET = {}
